@@ -135,6 +135,16 @@ def show_memory_address(
     try:
         variable_prefix, address, label_name = handle_read_f_j(variable_prefix, address, label_name, w)
 
+        # the index / length / op-offset the user typed move the read forward: it must still end inside the memory
+        read_end = address + w if variable_prefix is None else address + 2 * w * variable_prefix[1] * (variable_prefix[2] + 1)
+        if read_end > (1 << w):
+            show_message(
+                body_message=f"Failed while trying to read {user_query}:\n"
+                f" The requested memory ends at {hex(read_end)}, beyond the {w}-bits memory ({hex(1 << w)}).",
+                title_message='Bad memory address',
+            )
+            return
+
         if variable_prefix is None:
             memory_word_value = mem.get_word(address)
             show_message(
@@ -243,7 +253,8 @@ class BreakpointHandler:
         """
         variable_prefix = None
         query = target
-        match = re.match(r':([bhBfj])(\d*):(\d+:)?([^:]*)', target)
+        # the target is everything after the prefix (a macro-local label's full name contains ':')
+        match = re.fullmatch(r':([bhBfj])(\d*):(\d+:)?(.*)', target)
         if match:
             variable_type, variable_length, index_string, target = match.groups()
             if variable_length == '':
